@@ -3,6 +3,7 @@ import Driver.RingStream
 import Driver.WireStream
 import Driver.SchedStream
 import Driver.ProcStream
+import Driver.RegStream
 /-
 hwdriver: reads
     stream <name>
@@ -24,6 +25,8 @@ def dispatch (stream : String) : Option (String → String → CaseOut) :=
   | "hostile" => some hostileCase
   | "sched" => some schedCase
   | "proc" => some procCase
+  | "reg" => some regSeqCase
+  | "regsched" => some regSchedCase
   | _ => none
 
 def bump (cov : List (String × Nat)) (t : String) : List (String × Nat) :=
